@@ -129,6 +129,24 @@ def recovery_cases(rng, n):
                 rows.append([float(l)] + list(x) + list(u))
                 x = A @ x + B @ u
         X = np.array(rows)
+        # arrangement of the rows: contiguous blocks, blocks in another order, an episode logged in two chunks,
+        # rows interleaved round-robin (within-episode order always kept), labels with gaps
+        arr = ['contiguous', 'reordered', 'chunked', 'interleaved'][cid % 4]
+        if n_eps > 1 and arr != 'contiguous':
+            idx = {l: list(np.flatnonzero(X[:, 0] == l)) for l in range(n_eps)}
+            if arr == 'reordered':
+                order = sum((idx[l] for l in reversed(range(n_eps))), [])
+            elif arr == 'chunked':
+                h = len(idx[0]) // 2
+                order = idx[0][:h] + sum((idx[l] for l in range(1, n_eps)), []) + idx[0][h:]
+            else:
+                order = []
+                while any(idx.values()):
+                    for l in range(n_eps):
+                        if idx[l]:
+                            order.append(idx[l].pop(0))
+            X = X[order]
+            X[:, 0] = 3 * X[:, 0] + 2            # labels 2, 5, 8
         AB = np.hstack((A, B))
         # the property quantifies over data with bounded condition number
         if np.linalg.cond(pairs(X, nu)[0]) > 1e3:
@@ -149,7 +167,7 @@ def recovery_cases(rng, n):
                 err = float('inf'); info = dict(error=f'{type(e).__name__}: {e}')
             if not err <= 1e-6 * max(1.0, float(np.max(np.abs(AB)))):
                 bad.append(dict(what='regressor does not recover [A B] from noise-free data of a linear system',
-                                regressor=name, n_states=ns, n_inputs=nu, error=err, A=A.tolist(), B=B.tolist(),
+                                regressor=name, n_states=ns, n_inputs=nu, error=err, arrangement=arr, A=A.tolist(), B=B.tolist(),
                                 X=X.tolist(), **info))
         # pipeline clause
         evals += 1
